@@ -212,8 +212,6 @@ def run(ctx):
     full_run = len(sessions) > 100
     corr = _corruptions(sessions)
     missing = [c["name"] for c in corr if c["s"] is None]
-    if missing and full_run:
-        raise vlib.Broken("binding self-test: no recorded session to apply %s to" % missing)
     with open(trace, "a") as out:
         for c in corr:
             if c["s"] is not None:
@@ -234,6 +232,7 @@ def run(ctx):
         first_line[s] = n + 1
         n += len(lines)
     selftest = []
+    problems = ["no recorded session to apply '%s' to" % m for m in missing] if full_run else []
     for c in corr:
         if c["s"] is None:
             continue
@@ -241,10 +240,11 @@ def run(ctx):
         n += len(c["lines"])
         got = by_ses.get(c["s"])
         if not got:
-            raise vlib.Broken("binding self-test: the recorded session with '%s' was ACCEPTED by Trace_WsWire" % c["name"])
-        if c["exact"] and got[0][0] != start + c["at"]:
-            raise vlib.Broken("binding self-test: '%s' rejected at line %d, corrupted line is %d" % (c["name"], got[0][0], start + c["at"]))
-        selftest.append({"corruption": c["name"], "rejected_for": got[0][1]})
+            problems.append("the recorded session with '%s' was ACCEPTED by Trace_WsWire" % c["name"])
+        elif c["exact"] and got[0][0] != start + c["at"]:
+            problems.append("'%s' rejected at line %d, the corrupted line is %d" % (c["name"], got[0][0], start + c["at"]))
+        else:
+            selftest.append({"corruption": c["name"], "rejected_for": got[0][1]})
     ctx.notes["binding_selftest"] = selftest
 
     # rejections of real sessions are verdicts about the library (after reproduction in isolation)
@@ -279,6 +279,12 @@ def run(ctx):
         for s, what in lst:
             for stage, case, idx in owners[s]:
                 ctx.fail_results.append((stage, case, {"i": idx, "ok": False, "what": what}))
+    if problems and not ctx.fail_results:
+        # (the copies are made from what THIS tree wrote: on a tree that breaks the property they may be
+        # unavailable or already invalid before the corrupted record - then the verdict stands on its own)
+        raise vlib.Broken("binding self-test: " + "; ".join(problems))
+    if problems:
+        ctx.notes["binding_selftest_skipped"] = problems
 
 
 def _reproduce(ctx, stage, case, why):
